@@ -537,7 +537,9 @@ fn phase0(args: &Args, rep: &mut Report) {
         };
         let k = rng.below(u64::from(N_KINDS)) as u8;
         let np = rng.below_usize(4);
-        let parents: Vec<u8> = (0..np).map(|_| rng.below(4) as u8).collect();
+        let parents: Vec<u8> = (0..np)
+            .map(|_| rng.below(4) as u8 | if rng.chance(1, 4) { 0x80 } else { 0 })
+            .collect();
         let mut canon_parents = parents.clone();
         canon_parents.sort_unstable();
         canon_parents.dedup();
@@ -604,6 +606,26 @@ fn phase0(args: &Args, rep: &mut Report) {
             }
         }
         // kind / bytes / parent-set sensitivity
+        // the typed role of a cited parent is part of the identity
+        if let Some(first) = spec_a.parents.first().copied() {
+            let mut flipped = spec_a.parents.clone();
+            flipped[0] = first ^ 0x80;
+            let mut canon_flipped = flipped.clone();
+            canon_flipped.sort_unstable();
+            canon_flipped.dedup();
+            let spec_r = IntentSpec {
+                parents: flipped,
+                ..spec_a.clone()
+            };
+            if canon_flipped != canon_parents && spec_r.envelope(&topo).ingress_id() == ea.ingress_id() {
+                rep.violation(
+                    "C08:identity:parent-role-ignored",
+                    "changing only the typed role of a cited causal parent kept the ingress id",
+                    json!({"phase": 0, "case": case, "a": spec_a.to_json(), "b": spec_r.to_json()}),
+                );
+                return;
+            }
+        }
         let spec_c = IntentSpec {
             kind: (k + 1) % N_KINDS,
             ..spec_a.clone()
